@@ -14,7 +14,7 @@ THEOREMS = ["C19_names_the_method", "C19_which_errors_render_the_call", "C19_ren
             "C19_arguments_in_declaration_order", "C19_argument_i_is_parameter_i", "C19_separators",
             "C19_deref_chain_reaches_the_value", "C19_pattern_is_named", "C19_pattern_text",
             "C19_mismatch_positions", "C19_mismatch_positions_independent", "C19_mismatch_values",
-            "C19_instantiation", "C19_verification_lines", "C19_core_rendering", "C19_impossible_keeps_its_position", "C19_nonvacuous"]
+            "C19_instantiation", "C19_verification_lines", "C19_core_rendering", "C19_impossible_keeps_its_position", "C19_identical_debug_texts", "C19_nonvacuous"]
 
 RULE = ("one generated trait per case: method m of arity 0..5 whose parameter types are drawn from the class grammar "
         "(i32/String/str/Option<i32>/non-Debug enum/generic T/generic U: Debug, behind 0-3 `&`, `&mut`, slices; and `&mut Lt<'_>`, the Impossible class) plus a "
@@ -39,6 +39,7 @@ def TR(m, t): return ("R", m, t)
 def TS(t): return ("S", t)
 
 RUST_BASE = {"Int": "i32", "Str": "str", "String": "String", "Nd": "Nd", "Opt": "Option<i32>", "Gen": "T", "GenD": "U",
+             "Amb": "Amb",      # a user struct whose hand-written Debug shows only its first field; PartialEq (derived) compares both
              "ImpD": "impl std::fmt::Debug + 'static",      # argument-position impl Trait with a Debug bound: the model's class is that of U: Debug
              "Imp": "&mut Lt<'_>"}     # the whole parameter type: a unique borrow of a type with a lifetime = the macro's Impossible class
 
@@ -92,6 +93,7 @@ TYPE_POOL = (
     + [TR(False, TS(TR(False, TB("Int"))))]
     + [TB("Imp"), TB("Imp")]
     + [TB("ImpD"), TB("ImpD")]
+    + [TB("Amb"), TB("Amb"), TB("Amb")]
 )
 
 # ---- mirror of Macro/Debug.v (used only to steer generation away from programs rustc rejects)
@@ -126,6 +128,7 @@ def gen_value(rng, t):
         return ("L", [gen_value(rng, c[1]) for _ in range(rng.choice([0, 1, 1, 2, 2, 3]))])
     b = c[1]
     if b in ("Int", "Gen", "GenD", "Imp", "ImpD"): return ("I", rng.choice(DOM_INT))
+    if b == "Amb": return ("A", rng.randrange(8))          # fields (k / 4, k mod 4)
     if b in ("Str", "String"): return ("Str", rng.choice(DOM_STR))
     if b == "Nd": return ("C", rng.choice("AB"), [])
     return rng.choice([("C", "None", []), ("C", "Some", [("I", rng.choice(DOM_INT[:3]))])])
@@ -143,6 +146,7 @@ def rust_val(t, v):
     b = t[1]
     if b in ("Int", "Gen", "GenD", "ImpD"): return str(v[1])
     if b == "Imp": return f"&mut Lt({v[1]}, std::marker::PhantomData)"
+    if b == "Amb": return f"Amb({v[1] // 4}, {v[1] % 4})"
     if b == "String": return f'"{v[1]}".to_string()'
     if b == "Nd": return "Nd::" + v[1]
     return "None" if v[1] == "None" else f"Some({v[2][0][1]})"
@@ -154,6 +158,7 @@ def coq_str(s):
 
 def coq_val(v):
     if v[0] == "I": return f"(VInt {v[1]})"
+    if v[0] == "A": return f"(VCon \"Amb\" [VInt {v[1] // 4}; VInt {v[1] % 4}])"
     if v[0] == "Str": return f"(VStr {coq_str(v[1])})"
     if v[0] == "C": return f"(VCon {coq_str(v[1])} [{'; '.join(coq_val(x) for x in v[2])}])"
     return f"(VList [{'; '.join(coq_val(x) for x in v[1])}])"
@@ -179,6 +184,7 @@ def rust_pat(p):
         items = [rust_pat(q) for q in p[1]] + ([".."] if p[2] else []) + [rust_pat(q) for q in p[3]]
         return "[" + ", ".join(items) + ("," if len(items) >= 2 and len(items) % 2 == 0 else "") + "]"
     if k == "cmp": return f"{'ne' if p[1] else 'eq'}!(&{p[2]})"
+    if k == "cmpa": return f"{'ne' if p[1] else 'eq'}!(&Amb({p[2] // 4}, {p[2] % 4}))"
     raise ValueError(k)
 
 
@@ -197,7 +203,7 @@ def coq_pat(p):
     if k == "path": return f"(SPath {coq_str(p[2])})"
     if k == "ts": return f"(STS {coq_str(p[1])} {L(p[2])})"
     if k == "slice": return f"(SSlice {L(p[1])} {'true' if p[2] else 'false'} {L(p[3])})"
-    if k == "cmp": return f"(SCmp {'true' if p[1] else 'false'} {p[2]})"
+    if k in ("cmp", "cmpa"): return f"(SCmp {'true' if p[1] else 'false'} {p[2]})"
     raise ValueError(k)
 
 
@@ -246,6 +252,7 @@ def accepts(p, v):
         if (len(p[1]) + len(p[3]) > n) if p[2] else (len(p[1]) + len(p[3]) != n): return False
         return all(accepts(q, w) for q, w in zip(p[1], vs[:len(p[1])])) and all(accepts(q, w) for q, w in zip(p[3], vs[n - len(p[3]):]))
     if k == "cmp": return v[0] == "I" and ((v[1] != p[2]) if p[1] else (v[1] == p[2]))
+    if k == "cmpa": return v[0] == "A" and ((v[1] != p[2]) if p[1] else (v[1] == p[2]))
     raise ValueError(k)
 
 
@@ -279,6 +286,10 @@ def gen_subpat(rng, t, fresh, refutable_bias=0.75):
                     ("bindat", fresh(), rng.choice([lit(), rg])), ("paren", lit())]
             if owned:
                 opts += [("ref", lit()), ("cmp", False, rng.choice(DOM_INT)), ("cmp", True, rng.choice(DOM_INT))]
+        elif b == "Amb":
+            # only eq!/ne! (and `_`, bindings) are written for it; operands whose Debug text coincides with the argument's although they differ
+            if owned:
+                opts = [("cmpa", False, rng.randrange(8)), ("cmpa", False, rng.randrange(8)), ("cmpa", True, rng.randrange(8))]
         elif b in ("Str", "String"):
             s = lambda: ("str", rng.choice(DOM_STR))
             opts = [s(), s(), ("or", [("str", "a"), ("str", rng.choice(["", "ab", "b"]))])]
@@ -655,6 +666,9 @@ def render_gen_rs(cases):
     em.emit("use unimock::*;")
     em.emit("#[derive(Clone, Copy, PartialEq)]")
     em.emit("pub enum Nd { A, B }")
+    em.emit("#[derive(Clone, Copy, PartialEq)]")
+    em.emit("pub struct Amb(pub i32, pub i32);")
+    em.emit("impl std::fmt::Debug for Amb { fn fmt(&self, f: &mut std::fmt::Formatter<'_>) -> std::fmt::Result { write!(f, \"Amb({})\", self.0) } }")
     em.emit("pub struct Lt<'a>(pub i32, pub std::marker::PhantomData<&'a mut ()>);")
     em.emit("pub struct NC(pub i32);")
     em.emit()
